@@ -9,5 +9,6 @@ import (
 
 func htmlEntityDecode(data string) (string, bool, error) {
 	transformedData := html.UnescapeString(data)
-	return transformedData, len(data) != len(transformedData), nil
+	// the lengths can be equal although the text differs: "&#0" (3 bytes) decodes to U+FFFD (3 bytes)
+	return transformedData, data != transformedData, nil
 }
